@@ -1,13 +1,15 @@
-"""Keeps MANIFEST.not_applicable listing every property that has no check yet."""
-import json
-m=json.load(open('/verif/MANIFEST.json'))
-ids=[json.loads(l)['id'] for l in open('/verif/properties.jsonl')]
-claimed={c['property_id'] for c in m['checks']}
+"""Assembles MANIFEST.json: checks from manifest.d/Cxx.json, setup_cmd for the claimed drivers,
+   not_applicable for every property without a check."""
+import json, os, glob
+V='/verif'
+m=json.load(open(V+'/MANIFEST.json'))
+checks=[json.load(open(p)) for p in sorted(glob.glob(V+'/manifest.d/C*.json'))]
+m['checks']=checks
+ids=[json.loads(l)['id'] for l in open(V+'/properties.jsonl')]
+claimed=[c['property_id'] for c in checks]
+drivers=' '.join('drv_'+c.lower() for c in claimed)
+m['setup_cmd']="/venv/bin/python harness/extract_tables.py && cd lean && lake build OdmlModel %s" % drivers
 keep={n['property_id']:n for n in m.get('not_applicable',[]) if n['property_id'] not in claimed and not n['reason'].startswith('not built yet')}
-out=[]
-for i in ids:
-    if i in claimed: continue
-    out.append(keep.get(i, {"property_id": i, "reason": "not built yet: the Lean model, theorems and correspondence for this property are planned (DESIGN.md section 8) but not committed; nothing is claimed"}))
-m['not_applicable']=out
-json.dump(m, open('/verif/MANIFEST.json','w'), indent=1)
-print(len(claimed),'claimed;',len(out),'listed as not claimed')
+m['not_applicable']=[keep.get(i, {"property_id": i, "reason": "not built yet: the Lean model, theorems and correspondence for this property are planned (DESIGN.md section 8) but not committed; nothing is claimed"}) for i in ids if i not in claimed]
+json.dump(m, open(V+'/MANIFEST.json','w'), indent=1)
+print(len(claimed),'claimed;',len(m['not_applicable']),'not claimed')
